@@ -104,6 +104,23 @@ fn strip_current_dir(path_str: &str) -> Option<String> {
     Some(if rest.is_empty() { ".".to_string() } else { rest.to_string() })
 }
 
+/// Spelling-independent key of a path for baseline entries (`src/a.rs`, `.` for the root).
+#[must_use]
+pub(crate) fn path_key(path: &str) -> String {
+    let normalized = normalize_for_matching(Path::new(path));
+    let mut key = normalize_separators(&normalized.to_string_lossy());
+    // Keys are normalised again when they are looked up, so a key must be a fixed point:
+    // `././a.rs` takes more than one pass
+    while let Some(rest) = key.strip_prefix("./") {
+        key = rest.to_string();
+    }
+    if key.is_empty() || key == "." {
+        ".".to_string()
+    } else {
+        key
+    }
+}
+
 #[cfg(test)]
 mod tests {
     use super::*;
